@@ -207,9 +207,13 @@ def run(m: Model, r: Report, tier: str) -> None:
         for f_ in m.functions():
             if f_.module.name != mod_q:
                 continue
+            # the resolved value must travel on towards request_unsafe: as a field of a request config (keyword of a call, store into config.x);
+            # a local that only feeds a single transport.write (the suppressed tester-present path) is no override of the request's settings
+            into_cfg = {id(k_.value) for c_ in ast.walk(f_.node) if isinstance(c_, ast.Call) for k_ in c_.keywords} | \
+                       {id(a_.value) for a_ in ast.walk(f_.node) if isinstance(a_, ast.Assign) and isinstance(a_.targets[0], ast.Attribute)}
             for n_ in ast.walk(f_.node):
                 if isinstance(n_, ast.BoolOp) and isinstance(n_.op, ast.Or) and isinstance(n_.values[0], ast.Attribute) and n_.values[0].attr in ("max_retry", "timeout") \
-                        and "config" in ast.unparse(n_.values[0].value):
+                        and "config" in ast.unparse(n_.values[0].value) and (n_.values[0].attr == "max_retry" or id(n_) in into_cfg):
                     n_or += 1
                     r.check(False, "R7", f"{f_.qualname}#truthiness-override:{n_.values[0].attr}", f"`{ast.unparse(n_)}` treats an explicit per-request 0 as unset and substitutes the "
                             "client default: a request that must be sent once (max_retry=0) is retransmitted", loc=f"{f_.module.relpath}:{n_.lineno}")
